@@ -28,10 +28,18 @@ type CLIOpts struct {
 	PerModule      bool   // one run per file with --no-recurse instead of one recursive run
 	OutputFile     string // --output-file (implies per-module)
 	InferRoot      bool   // do not pass --thrift-root
+	Plugin         string // --plugin <name>; the executable thriftrw-plugin-<name> is looked up in PluginDir
 }
 
+// PluginDir is prepended to PATH of every CLI run that names a plugin.
+var PluginDir string
+
 func (o CLIOpts) String() string {
-	return fmt.Sprintf("nozap=%v strictenum=%v permodule=%v outfile=%q inferroot=%v", o.NoZap, o.StrictEnumText, o.PerModule, o.OutputFile, o.InferRoot)
+	s := fmt.Sprintf("nozap=%v strictenum=%v permodule=%v outfile=%q inferroot=%v", o.NoZap, o.StrictEnumText, o.PerModule, o.OutputFile, o.InferRoot)
+	if o.Plugin != "" {
+		s += " plugin=" + o.Plugin
+	}
+	return s
 }
 
 // Prog is one generated program in a batch.
@@ -170,8 +178,25 @@ func Generate(r *core.Run, thriftrw string, name string, spec Spec) *Batch {
 	return b
 }
 
-func runCLI(b *Batch, thriftrw string, pr *Prog) {
-	out := filepath.Join(b.Dir, "mod", fmt.Sprintf("p%d", pr.Index))
+// OutDir is the directory the CLI wrote program pr to.
+func (b *Batch) OutDir(pr *Prog) string {
+	return filepath.Join(b.Dir, "mod", fmt.Sprintf("p%d", pr.Index))
+}
+
+// ProbeWithoutPlugin reruns the CLI for a program without its plugin, into a
+// directory outside the module, and reports whether that run succeeds.
+func (b *Batch) ProbeWithoutPlugin(thriftrw string, pr *Prog) (bool, string) {
+	cp := *pr
+	cp.CLI.Plugin = ""
+	out := filepath.Join(b.Dir, "probe", fmt.Sprintf("p%d", pr.Index))
+	runCLITo(thriftrw, &cp, out)
+	os.RemoveAll(out)
+	return cp.GenOK, cp.GenOut
+}
+
+func runCLI(b *Batch, thriftrw string, pr *Prog) { runCLITo(thriftrw, pr, b.OutDir(pr)) }
+
+func runCLITo(thriftrw string, pr *Prog, out string) {
 	base := []string{"--out", out, "--pkg-prefix", pr.PkgBase}
 	if !pr.CLI.InferRoot {
 		base = append(base, "--thrift-root", filepath.Join(pr.SrcDir, "idl"))
@@ -181,6 +206,9 @@ func runCLI(b *Batch, thriftrw string, pr *Prog) {
 	}
 	if pr.CLI.StrictEnumText {
 		base = append(base, "--enum-text-marshal-strict")
+	}
+	if pr.CLI.Plugin != "" {
+		base = append(base, "--plugin", pr.CLI.Plugin)
 	}
 	var inputs [][]string
 	if pr.CLI.PerModule || pr.CLI.OutputFile != "" {
@@ -197,6 +225,9 @@ func runCLI(b *Batch, thriftrw string, pr *Prog) {
 	pr.GenOK = true
 	for _, args := range inputs {
 		cmd := exec.Command(thriftrw, args...)
+		if pr.CLI.Plugin != "" {
+			cmd.Env = append(os.Environ(), "PATH="+PluginDir+":"+os.Getenv("PATH"))
+		}
 		var se bytes.Buffer
 		cmd.Stderr = &se
 		cmd.Stdout = &se
